@@ -337,9 +337,21 @@ def untracked_case(args):
         npx[npx > 0] = 7.0
     elif iname == "out_where":
         np.multiply(npx, ya, out=npx, where=ya > 0)
+    (yv * 3.0).sum().backward()  # the operand, too, holds a gradient from a finished epoch
     arr_obj, ptr = t.data, t.data.ctypes.data
+    held = [(nm_, x_, None if x_.grad is None else np.array(x_.grad), x_.base, len(x_._ops))
+            for nm_, x_ in (("target", t), ("its view", v), ("the operand", yv))]
     with mg.no_autodiff:
         iop(t, yv)
+    for nm_, x_, g_, b_, n_ in held:
+        g2 = x_.grad
+        if (g_ is None) != (g2 is None) or (g_ is not None and not np.array_equal(g_, g2)):
+            fails.append(f"untracked in-place {iname}: {nm_} lost or changed the gradient it held "
+                         f"({None if g_ is None else g_.tolist()} -> {None if g2 is None else np.asarray(g2).tolist()})")
+        if x_.base is not b_:
+            fails.append(f"untracked in-place {iname}: the base link of {nm_} changed")
+        if len(x_._ops) != n_:
+            fails.append(f"untracked in-place {iname}: {nm_} recorded a consumer")
     if t.data is not arr_obj or t.data.ctypes.data != ptr:
         fails.append(f"untracked in-place {iname}: tensor's array was replaced")
     if not np.array_equal(t.data, npx):
